@@ -1035,6 +1035,13 @@ def slice_to_ascending_slice(
     if key.step is None or key.step > 0:
         return key
 
+    if (key.start is not None and key.start < 0) or (key.stop is not None and key.stop < 0):
+        # negative start or stop count from the end: normalize to positions; with a negative step, indices() reports a stop of -1 when position 0 is included, and a start of -1 when nothing is selected
+        start_pos, stop_pos, _ = key.indices(size)
+        if start_pos < 0:
+            return EMPTY_SLICE
+        key = slice(start_pos, None if stop_pos < 0 else stop_pos, key.step)
+
     stop = key.start if key.start is None else key.start + 1
 
     if key.step == -1:
